@@ -105,6 +105,12 @@ def BinOp.op : BinOp → Op
 
 /-! ### facts about the call sites and guards -/
 
+/-- typecheck.go typeAssertionExpr: the test under which a method missing from the asserted type is skipped
+    (`andBin`: `!token.IsExported(name) && isBin(typ)`; `orBin`: the same with `||`) -/
+inductive SkipCond where
+  | andBin | orBin | other (s : String)
+  deriving DecidableEq, Repr, Inhabited
+
 structure TcFacts where
   ops : OpFacts
   /-- cfg.go `case landExpr` / `case lorExpr` contain a call of a `check.` method -/
@@ -118,6 +124,8 @@ structure TcFacts where
   retTooFewCmp : CmpTok
   /-- cfg.go ifStmt0-3 / forStmt2,3,5,7: every `cond.rval.Bool()` is reached only when the condition is boolean -/
   condBoolGuarded : Bool
+  /-- typecheck.go typeAssertionExpr: when is a missing method ignored -/
+  assertSkipMissing : SkipCond
   deriving DecidableEq, Repr
 
 def CmpTok.eval : CmpTok → Nat → Nat → Bool
@@ -567,19 +575,23 @@ def callValueY (_T : TcFacts) (rets : List STy) : Res Opnd :=
 /-- `assignExpr` for `var v T = e` (`decl`) and `v = e`. For `v = e` whose source is a non-constant
     unary / binary operator node, the post-order shortcut of cfg.go ("store the result directly at the
     destination") has replaced the node's type by the destination type, so the assignment check sees
-    identical types. (Arithmetic nodes already carry the destination type by propagation, in both statements.) -/
+    identical types — except (since 3e0b633) when the destination is of interface type and the operator's
+    own type is not: the node keeps its type and the assignment is checked normally.
+    (Arithmetic nodes already carry the destination type by propagation, in both statements.) -/
 def assignY (T : TcFacts) (decl : Bool) (sh : Shape) (dst : Ty) (x : Opnd) : Res Ty :=
+  let shortcut : Res Ty :=
+    if dst.isIface && !x.ty.isIface then do assignmentY T.ops x dst; .ok dst else .ok dst
   match sh with
   | .plain | .arith .land | .arith .lor => do assignmentY T.ops x dst; .ok dst
   | .arith op =>
-    if !decl then .ok dst
+    if !decl then shortcut
     -- nodeType2: an arithmetic node that is the direct source of `var v I = …` gets (a copy of) the interface type
     else if dst.isIface && op != .rem then .ok dst
     else do assignmentY T.ops x dst; .ok dst
   | .recv =>
     -- "assign by reading from a receiving channel": `dest.typ = src.typ`, the variable takes the element type
     if decl then do assignmentY T.ops x dst; .ok x.ty else .ok dst
-  | _ => if decl then do assignmentY T.ops x dst; .ok dst else .ok dst
+  | _ => if decl then do assignmentY T.ops x dst; .ok dst else shortcut
 
 def defineY (T : TcFacts) (x : Opnd) : Res Ty :=
   match x.ty with
@@ -611,6 +623,20 @@ def sendY (T : TcFacts) (c v : Opnd) : Res Unit := do
     | _ => .err
   else .ok ()
 
+/-- typecheck.go `typeAssertionExpr` (called by cfg.go `case typeAssertExpr`): the operand must be of interface
+    type; an empty interface or an interface target is a dynamic check; otherwise every method of the interface
+    must be found in the asserted type (no type of the fragment is a binary type: `isBin` is false; all methods
+    of the fragment have value receivers and the signature `func()`, so the receiver and signature tests pass) -/
+def assertY (T : TcFacts) (typ : Ty) (x : Opnd) : Res Opnd := do
+  let _ ← kindOf x.ty
+  if !x.ty.isIface then .err
+  else if x.ty.methods.isEmpty || typ.isIface then .ok ⟨typ, .none⟩
+  else
+    match T.assertSkipMissing with
+    | .andBin => if x.ty.methods.all (fun m => typ.methods.contains m) then .ok ⟨typ, .none⟩ else .err
+    | .orBin => if x.ty.methods.all (fun m => typ.methods.contains m || !methodExported m) then .ok ⟨typ, .none⟩ else .err
+    | .other _ => .abstain
+
 /-- cfg.go ifStmt*/forStmt*: `!isBool(cond.typ)` sets the error; when the clause does not leave at that point
     (`condBoolGuarded = false`, the tree before the repair of F11) `cond.rval.Bool()` runs on the constant and panics -/
 def condY (T : TcFacts) (c : Opnd) : Res Unit := do
@@ -638,7 +664,7 @@ def retY (T : TcFacts) (results : List STy) (vals : List (Shape × Opnd)) : Res 
   retValsY T results vals
 
 def rulesY (T : TcFacts) : Rules :=
-  { un := unY T, recv := recvY T, bin := binY T, cmp := cmpY T, shift := shiftY T, conv := convY T,
+  { un := unY T, recv := recvY T, bin := binY T, cmp := cmpY T, shift := shiftY T, conv := convY T, assert := assertY T,
     index := indexY T, call := callY T, callValue := callValueY T,
     assign := assignY T, define := defineY T, opassign := opassignY T, shassign := shassignY T,
     incdec := incdecY T, send := sendY T, cond := condY T, ret := retY T }
